@@ -144,6 +144,18 @@ def check_sets(world, pipe, res, balanced_consumers=()):
                                     ok = True
                     if not ok:
                         out.append(('source-missing-from-set', f'{cons}: set for id {sorted(common)} has nothing from synchronized source {e["pub"]}: {brief(ins)}'))
+        # (a') an ephemeral source's set is one publication too (C05: "every set an ephemeral consumer does receive is complete")
+        for e in edges:
+            frames = per_edge.get(id(e))
+            if not e['eph'] or not frames or len(frames) < 2:
+                continue
+            sets_ = [{(inc, mid) for inc, mid, sock in pubs} for (st, tok, pubs, _) in frames.values() if pubs]
+            if len(sets_) >= 2 and not set.intersection(*sets_):
+                mids_ = [{mid for inc, mid in s_} for s_ in sets_]
+                if set.intersection(*mids_):
+                    out.append(('ephemeral-set-mixes-publisher-incarnations', f'{cons}: frames from ephemeral source {e["pub"]} in one set carry the same message id {sorted(set.intersection(*mids_))} but were published by different incarnations of {e["pub"]} (id reused after it was killed and restarted; a partial set of the old incarnation was completed by the new one): {brief(ins)}'))
+                else:
+                    out.append(('ephemeral-set-mixes-ids', f'{cons}: frames from ephemeral source {e["pub"]} in one set were published under different message ids {[sorted(m) for m in mids_]}: {brief(ins)}'))
         # (b) completeness per synchronized (and per ephemeral) source
         for e in edges:
             frames = per_edge.get(id(e))
@@ -215,14 +227,29 @@ def check_order(world, pipe, res, consumers=None):
                 out.append(('content-altered', f'{cons}: frame on topic {t!r} differs from what was published: {m}'))
         eph_pubs = {e['pub'] for e in edges if e['eph']}
         seen_here = set()
+        # which of the delivered frames came over an ephemeral source?
+        eph_of = {}
         for dst, tok in ev['ins'].items():
             if 'o' not in tok:
                 continue
             if mixed:
                 c = edge_for_topic(edges, dst, pubidx, tok)
-                eph = bool(c[0][0]['eph']) if c else is_from_ephemeral(pipe, cons, dst, tok)
+                eph_of[dst] = bool(c[0][0]['eph']) if c else is_from_ephemeral(pipe, cons, dst, tok)
             else:
-                eph = bool(edges[0]['eph'])
+                eph_of[dst] = bool(edges[0]['eph'])
+        # an ephemeral set holding frames of two originals is the set checker's business (mixed set), not an ordering question
+        eph_seqs = {}
+        for dst, tok in ev['ins'].items():
+            if eph_of.get(dst):
+                eph_seqs.setdefault((tok['o'], tok['oi']), set()).add(tok['seq'])
+        mixed_eph = {k_ for k_, v_ in eph_seqs.items() if len(v_) > 1}
+        for dst, tok in ev['ins'].items():
+            if 'o' not in tok:
+                continue
+            eph = eph_of[dst]
+            if eph and (tok['o'], tok['oi']) in mixed_eph:
+                res.count('mixed_ephemeral_sets_left_to_the_set_checker')
+                continue
             key = (cons, tok['o'], tok['oi'], 'e' if eph else 's')
             v = tok['seq']
             if (key, v) in seen_here:
